@@ -3,7 +3,7 @@ import ast
 
 import sympy as sp
 
-from ..astutil import call_name, calls_in, norm, stmts_of
+from ..astutil import call_name, calls_in, enclosing_tests, norm, parents, stmts_of
 from ..report import RuleDef
 from ..src import AnalysisError
 from ..tb import tables
@@ -264,34 +264,52 @@ def r3(ctx):
 def r4(ctx):
     m = ctx.model
     ser, row_writer, par, row_reader, rmod = _funcs(m)
-    # sky regions: warn + continue
+    # sky regions: the serialiser warns and goes on with the next region — no row writer call sees a sky region
     ok_sky = False
-    for st in stmts_of(ser.node):
-        if isinstance(st, ast.If) and 'isinstance(region, SkyRegion)' in norm(st.test) and \
-                isinstance(st.body[-1], ast.Continue):
-            ok_sky = True
+    pm = parents(ser.node)
+    for c in calls_in(ser.node):
+        cs = m.resolve_call(ser, c)
+        if cs and cs[0].qualname == row_writer.qualname:
+            tests = enclosing_tests(ser.node, c, pm)
+            blk_guard = False
+            # either the call sits under `not isinstance(region, SkyRegion)` or a preceding branch on it leaves the iteration
+            for t, pol in tests:
+                if 'SkyRegion' in norm(t) and 'isinstance' in norm(t) and not pol:
+                    blk_guard = True
+            for st in stmts_of(ser.node):
+                if isinstance(st, ast.If) and 'SkyRegion' in norm(st.test) and 'isinstance' in norm(st.test) \
+                        and st.body and isinstance(st.body[-1], (ast.Continue, ast.Return, ast.Raise)):
+                    blk_guard = True
+            ok_sky = blk_guard
     if ok_sky:
         ctx.ok(f'{ser.qualname.split(":")[1]}:sky', 'sky regions: warn, continue')
     else:
-        ctx.bad(ser.qualname.split(':')[1], 'sky-not-skipped', 'sky regions are not skipped with `continue`', ser.loc())
-    # unsupported classes: None sentinel tested by the caller
-    names = None
-    for st in stmts_of(row_writer.node):
-        if isinstance(st, ast.Assign) and norm(st.targets[0]) == 'unsupported_regions':
-            names = ast.literal_eval(st.value)
-    ret_none = any(isinstance(st, ast.If) and 'in unsupported_regions' in norm(st.test) and isinstance(st.body[-1], ast.Return)
-                   and norm(st.body[-1].value) == 'None' for st in stmts_of(row_writer.node))
-    tested = any(isinstance(st, ast.If) and norm(st.test).replace(' ', '') in ('regdataisnotNone',) for st in stmts_of(ser.node))
+        ctx.bad(ser.qualname.split(':')[1], 'sky-not-skipped', 'sky regions can reach the row writer', ser.loc())
+    # unsupported classes: the row writer, evaluated on a symbolic instance of every pixel class, yields a row exactly for
+    # the FITS-representable classes and the None sentinel (and nothing else) for the others; the caller tests the sentinel
+    from .c09 import _untested_sentinel_callers
     table, classes = fits_classes(m)
     handled = {c.name for c in classes}
-    pix = {c.name for c in m.region_classes('pixel')}
-    missing = sorted(pix - handled - set(names or ()))
-    if ret_none and tested and not missing:
-        ctx.ok(f'{row_writer.qualname.split(":")[1]}:unsupported', f'{sorted(names)} return None; caller tests it')
+    probs = []
+    skipped = []
+    for ci in m.region_classes('pixel'):
+        wf, row, out = write_row(m, ci)
+        vals = [v for _, v in out.returns]
+        only_none = bool(vals) and all(isinstance(v, Const) and v.v is None for v in vals) and not out.raises
+        if ci.name in handled:
+            continue            # R1 decides these
+        if only_none:
+            skipped.append(ci.name)
+        else:
+            probs.append(f'{ci.name} (no FITS shape) is not skipped with the None sentinel: '
+                         f'{[show(v, 40) for v in vals][:2]} raises {[n for _, n, _ in out.raises][:2]}')
+    untested = _untested_sentinel_callers(m, row_writer) if skipped else []
+    if untested:
+        probs.append(f'the caller {untested[0][0].qualname.split(":")[1]} uses `{untested[0][1]}` without testing it for None')
+    if probs:
+        ctx.bad(row_writer.qualname.split(':')[1], 'unsupported-not-skipped', '; '.join(probs[:2]), row_writer.loc())
     else:
-        ctx.bad(row_writer.qualname.split(':')[1], 'unsupported-not-skipped',
-                f'unsupported classes are not skipped cleanly (returns None: {ret_none}, caller tests: {tested}, classes neither '
-                f'supported nor listed: {missing})', row_writer.loc())
+        ctx.ok(f'{row_writer.qualname.split(":")[1]}:unsupported', f'{sorted(skipped)} yield the None sentinel; every caller tests it')
 
 
 def r5(ctx):
@@ -376,29 +394,50 @@ def r6(ctx):
             ctx.ok(fi.qualname.split(':')[1], 'no write reaches the regions being serialised')
 
 
+COMPONENT_PROBES = [([7, None, 3, None], [7, 8, 3, 9]), ([None, None], None), ([1, 2], [1, 2]), ([None, 5], [6, 5]),
+                    ([None, 2, None, 2], [3, 2, 4, 2]), ([4], [4]), ([None], None), ([0, None], [0, 1]), ([None, 0, 0], [1, 0, 0])]
+
+
 def r7(ctx):
+    """fresh component numbers: the numbering function, partially evaluated on rows with given / missing components —
+    given numbers stay, missing ones become max(given) + 1 + k (distinct from every given one and from each other), and no
+    column is produced when no row has a number."""
     m = ctx.model
     ser, row_writer, par, row_reader, rmod = _funcs(m)
     wmod = m.modules[ser.module]
+    mk = [fi for fi in wmod.functions.values() if any((call_name(c) or '').endswith('QTable') for c in calls_in(fi.node))
+          and any(isinstance(n, ast.Subscript) and isinstance(n.ctx, ast.Store) for n in ast.walk(fi.node))]
     comp_fn = None
-    for fi in wmod.functions.values():
-        if 'component' in fi.name:
-            comp_fn = fi
+    if len(mk) == 1:
+        for st in stmts_of(mk[0].node):
+            if isinstance(st, ast.Assign) and isinstance(st.value, ast.Call) and 'component' in norm(st.targets[0]).lower():
+                cs = m.resolve_call(mk[0], st.value)
+                if cs:
+                    comp_fn = cs[0]
     ctx.need(comp_fn is not None, 'fits write', 'component numbering function not found')
-    src = {norm(st.targets[0]): norm(st.value) for st in stmts_of(comp_fn.node)
-           if isinstance(st, ast.Assign) and len(st.targets) == 1}
-    start = [v for k, v in src.items() if 'start' in k]
-    fill = [(k, v) for k, v in src.items() if k.startswith('components[')]
-    ok = bool(start) and start[0].replace(' ', '') in ('np.max(comps)+1', 'max(comps)+1', '1+np.max(comps)') and \
-        bool(fill) and fill[0][1].replace(' ', '') in ('np.arange(len(none_idx))+start_component',
-                                                        'start_component+np.arange(len(none_idx))')
-    comps_ok = src.get('comps', '').replace(' ', '') == '[iforiincomponentsifiisnotNone]'
-    if ok and comps_ok:
-        ctx.ok(comp_fn.qualname.split(':')[1], 'missing numbers = max(existing) + 1 + k: above every existing one and distinct')
+    bad = []
+    for given, want in COMPONENT_PROBES:
+        rows = Tup(tuple(Obj('_RegionData', {'component': (Const(None) if c is None else sp.Integer(c))}, None, None)
+                         for c in given), 'list')
+        ev_ = Evaluator(m)
+        out = ev_.run(comp_fn, [rows], {})
+        v = ev_.gated_return(out) if out.returns and not out.raises else None
+        if isinstance(v, Tup) and all(is_num(i) and i.is_number for i in v.items):
+            got = [int(i) for i in v.items]
+        elif isinstance(v, Const) and v.v is None:
+            got = None
+        else:
+            raise AnalysisError('C12.R7', comp_fn.qualname, f'not reducible on components {given}: {show(v, 160)}')
+        if got != want:
+            bad.append((given, got, want))
+    name = comp_fn.qualname.split(':')[1]
+    if bad:
+        given, got, want = bad[0]
+        ctx.bad(name, 'component-numbers',
+                f'rows with components {given} are numbered {got}; given numbers must stay and the missing ones must be '
+                f'max(given)+1+k: {want} ({len(bad)} of {len(COMPONENT_PROBES)} probes differ)', comp_fn.loc())
     else:
-        ctx.bad(comp_fn.qualname.split(':')[1], 'component-numbers',
-                f'fresh component numbers are {fill[0][1] if fill else "?"} with start {start[0] if start else "?"}; they must be '
-                'max(existing)+1+k to be distinct from every existing number', comp_fn.loc())
+        ctx.ok(name, f'{len(COMPONENT_PROBES)} probes: given numbers kept, missing = max(given) + 1 + k, no column when none is given')
 
 
 def r7b(ctx):
